@@ -1083,20 +1083,33 @@ pub(crate) fn eval_query(ctx: &Context, expr: &Query) -> Result<QueryReply, Quer
                     )))
                 }
             };
+            // These come from the definitions file; a context loaded
+            // from something else may not have them.
             let bottom = ctx
                 .lookup(scale)
-                .expect(&*format!("Unit {} missing", scale));
+                .ok_or_else(|| QueryError::generic(format!("Missing {} unit", scale)))?;
+            let base = ctx
+                .lookup(base)
+                .ok_or_else(|| QueryError::generic(format!("Missing {} constant", base)))?;
             if top.unit != bottom.unit {
                 Err(QueryError::Conformance(Box::new(conformance_err(
                     ctx, top, &bottom,
                 ))))
             } else {
-                let res = (top
-                    - &ctx
-                        .lookup(base)
-                        .expect(&*format!("Constant {} missing", base)))
-                    .unwrap();
-                let res = (&res / &bottom).unwrap();
+                let res = (top - &base).ok_or_else(|| {
+                    QueryError::generic(format!(
+                        "Subtraction of units with mismatched units is not meaningful: <{}> - <{}>",
+                        top.show(ctx),
+                        base.show(ctx)
+                    ))
+                })?;
+                let res = (&res / &bottom).ok_or_else(|| {
+                    QueryError::generic(format!(
+                        "Division by zero: <{}> / <{}>",
+                        res.show(ctx),
+                        bottom.show(ctx)
+                    ))
+                })?;
                 let mut name = BTreeMap::new();
                 name.insert(deg.to_string(), 1);
                 Ok(QueryReply::Conversion(Box::new(ctx.show(
